@@ -4,6 +4,8 @@ use std::path::Path;
 pub mod c09;
 pub mod c12;
 pub mod c16;
+pub mod c18;
+pub mod c19;
 pub mod c21;
 pub mod c26;
 pub mod c22;
@@ -18,6 +20,8 @@ pub fn for_property(p: &str) -> Vec<Suite> {
     match p {
         "C09" => c09::suites(),
         "C16" => c16::suites(),
+        "C18" => c18::suites(),
+        "C19" => c19::suites(),
         "C21" => c21::suites(),
         "C26" => c26::suites(),
         "C12" => c12::suites_c12(),
@@ -41,6 +45,8 @@ pub fn extract_all(dir: &Path) {
     c16::extract(dir);
     c22::extract(dir);
     c30::extract(dir);
+    c18::extract(dir);
+    c19::extract(dir);
 }
 
 #[allow(dead_code)]
